@@ -18,7 +18,7 @@ func init() {
 		Title: "Random UUIDs are always version 4 / variant 1 and generation is thread-safe",
 		Run:   runC19,
 		Explanation: "C19.source: every value stored into the shared generator is rand.New(rand.NewSource(·)) — the premise under which a draw is 63 fresh bits. C19.bits: bit-provenance evaluation of uu.RandomID over symbolic 63-bit draws a,b: Higher bits 15..12 must be the constants 0100, Lower bits 63..62 the constants 10, and the remaining 122 result bits copies of pairwise distinct source bits; composed with the bit-level reading of ID.Version/ID.Variant this makes Version()=4 and Variant()=1 on every draw. " +
-			"C19.lock: lockset + who-may-touch: the only function referencing the package-level PRNG is the one that draws; every use is dominated by randomMutex.Lock() with a deferred Unlock; the PRNG value is never returned, stored or captured, and passed only to a function parameter of an unexported function all of whose callers hand in function literals that merely draw (a callback under the lock); it receives only drawing methods — every Seed after initialisation is reported (the stream restarts); an unexported drawing function counts as called under the lock only if every static call site holds it and the function is nowhere used as a value; a mutex held by pointer is set in the package initialiser only; RandomID touches no other package-level state. C19.bits also asks that no other exported function, method or package-level function literal of the package reaches a draw from math/rand, math/rand/v2 or crypto/rand (by call, closure or function value) except through RandomID. Since audit round 3: a draw is also a stdlib drawing function used as a value, a use of crypto/rand.Reader (or any variable of the three packages), and a draw reached in another package of the module; the generator may only be a method call receiver.",
+			"C19.lock: lockset + who-may-touch: the only function referencing the package-level PRNG is the one that draws; every use is dominated by randomMutex.Lock() with a deferred Unlock; the PRNG value is never returned, stored or captured, and passed only to a function parameter of an unexported function all of whose callers hand in function literals that merely draw (a callback under the lock); it receives only drawing methods — every Seed after initialisation is reported (the stream restarts); an unexported drawing function counts as called under the lock only if every static call site holds it and the function is nowhere used as a value; a mutex held by pointer is set in the package initialiser only; RandomID touches no other package-level state. C19.bits also asks that no other exported function, method or package-level function literal of the package reaches a draw from math/rand, math/rand/v2 or crypto/rand (by call, closure or function value) except through RandomID. Since audit round 3: a draw is also a stdlib drawing function used as a value, a use of crypto/rand.Reader (or any variable of the three packages), and a draw reached in another package of the module; the generator may only be a method call receiver; every constructor of the random packages in the module feeds the shared generator and nothing else; exported functions of any package of the module that yield a uu.ID are roots of the second-generator search.",
 		NotDecided:  []string{"a generator whose state is kept in sync/atomic values or behind an RWMutex (the lock rule knows sync.Mutex on the one package-level generator)", "absence of duplicates within a run and 'each of the 122 bits takes both values' are statistical properties of the math/rand stream", "the race detector's dynamic view (the lockset argument replaces it)"},
 		Assumptions: []string{"math/rand.Rand.Int63 returns a value with bit 63 clear", "math/rand.Rand is not goroutine-safe; sync.Mutex provides mutual exclusion"},
 		Technique:   "bit-provenance abstract interpretation + lockset/dominator analysis over go/ssa",
